@@ -1,5 +1,5 @@
 CONSTANTS Conns = {1, 2} T = 3 Slack = 1 MaxTime = 9
 SPECIFICATION Spec
 INVARIANTS NoEarlyCut CutInTime
-PROPERTIES IdleCut
+PROPERTIES IdleCut StalledCut
 CHECK_DEADLOCK FALSE
